@@ -9,4 +9,5 @@ hydro_lang::setup!();
 pub mod atomic_flows;
 pub mod net_flows;
 pub mod quorum_flows;
+pub mod selftest_mutants;
 pub mod slice_flows;
